@@ -144,6 +144,12 @@ theorem ofTrieChecked_accepts_copy {m : FM} {es : Spec} (h : FMInv m es) (hF : m
   rfl
 
 
+/-- the hypotheses of `ofTrieChecked_accepts_copy` / `ofTrieChecked_safe` are satisfiable: a FilterMap after one `emplace` -/
+example : ∃ (m : FM) (es : Spec), FMInv m es ∧ m.trie.F ≠ [] ∧ m.items.length = 1 := by
+  have h0 : FMInv (⟨⟨[2, 2], 0, [[[], [], []], [[], [], []]]⟩, []⟩ : FM) [] := FMInv_new (F := [2, 2]) rfl
+  have v : ValidPF [2, 2] [(0, 1)] := by simp [ValidPF, KeysAsc]
+  exact ⟨_, _, FMInv_emplace h0 v 42, by simp [FM.emplace, T.insert], by simp [FM.emplace]⟩
+
 /-! ### `match` -/
 
 theorem KeysAsc_mono {lo lo' : Nat} {pf : PF} (h : KeysAsc lo pf) (hl : lo' ≤ lo) : KeysAsc lo' pf := by
